@@ -80,6 +80,7 @@ type methodSet map[string]*ssa.Function
 
 // State shared between all interpreted goroutines.
 type interpreter struct {
+	zeroSizeCell       *value                 // shared address of all zero-size heap allocations (gc: runtime.zerobase)
 	osArgs             []value                // the value of os.Args
 	prog               *ssa.Program           // the SSA program
 	globals            map[*ssa.Global]*value // addresses of global variables (immutable)
@@ -331,8 +332,17 @@ func visitInstr(fr *frame, instr ssa.Instruction) continuation {
 	case *ssa.Alloc:
 		var addr *value
 		if instr.Heap {
-			// new
-			addr = new(value)
+			// new. Like the gc runtime (runtime.zerobase), every heap allocation of a zero-size
+			// type yields the same address: code that compares such pointers (origami's
+			// `lv == rv` shortcut on *NullValue) behaves under the engine as it does natively.
+			if st, ok := mustDeref(instr.Type()).Underlying().(*types.Struct); ok && st.NumFields() == 0 {
+				if fr.i.zeroSizeCell == nil {
+					fr.i.zeroSizeCell = new(value)
+				}
+				addr = fr.i.zeroSizeCell
+			} else {
+				addr = new(value)
+			}
 			fr.env[instr] = addr
 		} else {
 			// local
